@@ -39,6 +39,10 @@ pub struct Case {
     /// state the sampler keeps from call to call has seen the same number of calls.
     #[serde(default)]
     pub gen_calls: u64,
+    /// concurrent calls are made by the workers of a (modelled) rayon pool, inside a parallel
+    /// iterator, instead of by plain threads: what a planner running inside a user's pool does
+    #[serde(default)]
+    pub via_pool: bool,
 }
 
 /// Build the constraints the way the case says. The oracle then reads the limits back from the
@@ -246,7 +250,13 @@ pub fn judge_with(case: &Case, repeat_gen_calls: bool) -> Vec<Fail> {
         cfg.rng = RngSpec::List(flat);
         let (tasks, rows) = (case.tasks, case.draws.len());
         let cc = c;
+        let via_pool = case.via_pool;
         let out = sim::simulate(&cfg, move || {
+            if via_pool {
+                use sim_rayon::prelude::*;
+                let vs: Vec<[f64; 6]> = (0..rows).into_par_iter().map(|_| cc.random_angles()).collect();
+                return vs;
+            }
             let results = std::sync::Arc::new(std::sync::Mutex::new(Vec::new()));
             let mut hs = Vec::new();
             for t in 0..tasks {
@@ -537,7 +547,7 @@ fn gen_case(seed: u64, shard: usize, run: usize, t: &Tier, tally: &mut Tally) ->
         _ => 0,
     };
     tally.bump(&format!("constraints_built_by_{}", ["new", "from_degrees", "update_range", "edited_fields_then_update_range", "new_then_widened_tolerances", "solver_constraints_by_prev", "solver_constraints_by_constraints", "solver_constraints_weight_half"][ctor as usize]), 1);
-    let c = build(&Case { from, to, draws: vec![], tasks: 1, cfg: None, ctor, prelude: None, gen_calls: 0 });
+    let c = build(&Case { from, to, draws: vec![], tasks: 1, cfg: None, ctor, prelude: None, gen_calls: 0, via_pool: false });
     let rows = adversarial_rows(&c, &mut w, t.uniform, t.grid, tally);
     let concurrent = t.concurrent_every > 0 && run % t.concurrent_every == 0;
     // history: a wider (or narrower) set with bit-identical centres sampled just before
@@ -586,9 +596,13 @@ fn gen_case(seed: u64, shard: usize, run: usize, t: &Tier, tally: &mut Tally) ->
         let mut knobs = Rng::derive(seed, shard as u64, run as u64, "c18.knobs");
         let cfg = SimCfg::swarm(&mut knobs, simctx::mix(&[seed, shard as u64, run as u64, 18]), 0, 100_000);
         tally.bump("concurrent_sampler_runs", 1);
-        Case { from, to, draws: rows.iter().take(24).cloned().collect(), tasks: knobs.range_usize(2, 4), cfg: Some(cfg), ctor, prelude: None, gen_calls: 0 }
+        let via_pool = knobs.chance(0.5);
+        if via_pool {
+            tally.bump("concurrent_sampler_runs_on_pool_workers", 1);
+        }
+        Case { from, to, draws: rows.iter().take(24).cloned().collect(), tasks: knobs.range_usize(2, 4), cfg: Some(cfg), ctor, prelude: None, gen_calls: 0, via_pool }
     } else {
-        Case { from, to, draws: rows, tasks: 1, cfg: None, ctor: if prelude.is_some() { 0 } else { ctor }, prelude, gen_calls: 0 }
+        Case { from, to, draws: rows, tasks: 1, cfg: None, ctor: if prelude.is_some() { 0 } else { ctor }, prelude, gen_calls: 0, via_pool: false }
     };
     let mut case = case;
     case.gen_calls = CALLS.with(|n| n.get()) - calls_before;
